@@ -17,3 +17,11 @@ open Pyx12Verif.Envelope
 #print axioms not_nested_reports_partial
 #print axioms flattenDoc_properlyNested
 #print axioms properlyNested_iff
+#print axioms pyInt_ascii
+#print axioms pyInt_ascii_digits
+#print axioms pyInt_unicode_digits
+#print axioms pyInt_skips
+#print axioms pyInt_rejects
+#print axioms pyInt_unicode_example
+#print axioms isPySpace_iff
+#print axioms pyDigitVal_eq_some
